@@ -251,6 +251,8 @@ class Interp:
     def as_bool(self, v):
         if isinstance(v, z3.BoolRef):
             return v
+        if isinstance(v, z3.ExprRef) and v.sort() == Val:
+            return z3.Function('truth', Val, z3.BoolSort())(v)          # Python truthiness of a value: an uninterpreted predicate of the term
         raise Unsupported('truth value of a non-boolean term')
 
     def val(self, v):
@@ -332,7 +334,8 @@ class Interp:
             pos = [self.val(self.ev(a, path)) for a in e.args]
             return self.canonical_call(r, pos, kws)
         # method call / builtin / library call: uninterpreted by name
-        if isinstance(e.func, ast.Attribute) and (r is None or r[0] == 'other') and not (d and d.split('.')[0] in self.mod.imports and not self.oracle):
+        if isinstance(e.func, ast.Attribute) and (r is None or r[0] == 'other') and not (d and d.split('.')[0] in self.mod.imports and not self.oracle) \
+                and not (self.oracle and d and d.split('.')[0] in ('numpy', 'warnings')):
             recv = self.ev(e.func.value, path)
             if isinstance(recv, z3.ExprRef):
                 args = [self.val(recv)] + [self.val(self.ev(a, path)) for a in e.args]
@@ -421,13 +424,17 @@ class Interp:
         raise Unsupported('statement %s' % type(s).__name__)
 
 
-def universe_for(task):
+# keyword-forwarding functions other than evaluate() that are checked against their documented composition (oracle `<task>_<fn>`)
+FN_TARGETS = {('multipitch', 'metrics'): ['C03', 'C18', 'C05', 'C04', 'C07']}
+
+
+def universe_for(task, fn='evaluate'):
     """keyword names that matter: parameters of every repository function mentioned in evaluate() / the oracle,
     every literal key of kwargs, plus one unrelated name"""
     names = set()
     mod = frontend.module(task)
-    fd = mod.functions['evaluate']
-    oracle = oracle_def(task)
+    fd = mod.functions[fn]
+    oracle = oracle_def(task if fn == 'evaluate' else '%s_%s' % (task, fn))
     for tree, is_oracle in ((fd, False), (oracle, True)):
         for n in ast.walk(tree):
             d = frontend.dotted(n) if isinstance(n, (ast.Name, ast.Attribute)) else None
@@ -448,6 +455,12 @@ def universe_for(task):
                 names.add(n.left.value)
     pos, _, _, _ = frontend.params(fd)
     names -= set(pos)
+    if fn != 'evaluate':
+        # keywords the documented composition fixes itself (direct(f, ..., chroma=True)) are not the caller's to give: passing one is a
+        # TypeError of the real function (duplicate keyword) and outside the statement
+        for n in ast.walk(oracle):
+            if isinstance(n, ast.Call) and frontend.dotted(n.func) == 'direct':
+                names -= {k.arg for k in n.keywords if k.arg}
     names.discard('_function')
     names.add(OTHER)
     return sorted(names)
@@ -476,15 +489,16 @@ def oracle_arity():
             return ast.literal_eval(n.value)
 
 
-def analyse(task):
-    """-> list of obligation dicts for task.evaluate"""
+def analyse(task, fn='evaluate'):
+    """-> list of obligation dicts for task.evaluate (or another keyword-forwarding function `fn` of the module, whose oracle is
+    `<task>_<fn>` in contracts/_bundles.py and whose result may be a tuple)"""
     t0 = time.time()
     mod = frontend.module(task)
-    fd = mod.functions['evaluate']
+    fd = mod.functions[fn]
     pos, kwonly, has_kw, _ = frontend.params(fd)
     if not has_kw:
-        raise Unsupported('evaluate() of %s has no **kwargs' % task)
-    uni = universe_for(task)
+        raise Unsupported('%s() of %s has no **kwargs' % (fn, task))
+    uni = universe_for(task, fn)
     it = Interp(task, uni)
     K = it.user_kw(uni)
     env = {p: z3.Const('in[%s]' % p, Val) for p in pos}
@@ -495,7 +509,7 @@ def analyse(task):
     impl_issues = list(it.issues)
     it.issues = []
     it.oracle = True
-    od = oracle_def(task)
+    od = oracle_def(task if fn == 'evaluate' else '%s_%s' % (task, fn))
     o_env = {}
     o_pos = [a.arg for a in od.args.args]
     if o_pos != pos:
@@ -520,12 +534,29 @@ def analyse(task):
             m = s.model()
             model = {'given_keywords': sorted(k for k in uni if z3.is_true(m.eval(K.entries[k][0], model_completion=True))),
                      'user_value_is_None': sorted(k for k in uni if z3.is_true(m.eval(it.is_none(K.entries[k][1]), model_completion=True)))}
-        obs.append(dict(id=oid, kind=kind, label=label, props={'separation': ['C19', 'C03'], 'hierarchy': ['C03', 'C17']}.get(task, ['C03']), line=fd.lineno, note=note, expect='unsat',
+        obs.append(dict(id=oid, kind=kind, label=label, props=FN_TARGETS.get((task, fn)) or {'separation': ['C19', 'C03'], 'hierarchy': ['C03', 'C17']}.get(task, ['C03']), line=fd.lineno, note=note, expect='unsat',
                         verdict=verdict, backend='z3', time=round(time.time() - ts, 4), model=model, goal=str(goal)[:600], finding=None))
 
     for msg in impl_issues:
-        obs.append(dict(id='%s.evaluate#safe:kwargs' % task, kind='safe', label='kwargs', props=['C03', 'C14'], line=fd.lineno,
+        obs.append(dict(id='%s.%s#safe:kwargs' % (task, fn), kind='safe', label='kwargs', props=['C03', 'C14'], line=fd.lineno,
                         note=msg, expect='unsat', verdict='refuted', backend='pyvc', time=0.0, model=None, goal=msg, finding=None))
+    if fn != 'evaluate':
+        # a tuple-valued function: component i of the result is component i of the documented composition, on every pair of paths
+        for pi_ in impl_paths:
+            ret_i = pi_.env.get('__ret__')
+            for po in o_paths:
+                ret_o = po.env['__ret__']
+                hyps = pi_.pc + po.pc
+                s = z3.Solver()
+                s.add(*ax, *hyps)
+                if s.check() == z3.unsat:
+                    continue
+                same = isinstance(ret_i, tuple) and isinstance(ret_o, tuple) and len(ret_i) == len(ret_o)
+                ob('%s.%s#keys:arity' % (task, fn), 'keys', 'arity', hyps, z3.BoolVal(same), note='' if same else 'result shape differs from the documented one')
+                if same:
+                    for k, (a_, b_) in enumerate(zip(ret_i, ret_o)):
+                        ob('%s.%s#route:%d' % (task, fn, k), 'route', str(k), hyps, a_ == b_, note='component %d of the result is not the documented composition' % k)
+        return obs, dict(universe=uni, impl_paths=len(impl_paths), oracle_paths=len(o_paths), wall=round(time.time() - t0, 3))
     all_keys = []
     for po in o_paths:
         for k in po.env['__ret__']:
@@ -749,7 +780,7 @@ def run(prop, tier, seed, known):
     results = []
     bounded = []
     # C03: every task; other properties claim one task's evaluate() routing (and the keyword filter it goes through)
-    tasks = TASKS if prop == 'C03' else {'C19': ['separation'], 'C17': ['hierarchy']}.get(prop, ['separation'])
+    tasks = TASKS if prop == 'C03' else {'C19': ['separation'], 'C17': ['hierarchy']}.get(prop, [])
     for task in tasks:
         t0 = time.time()
         try:
@@ -772,6 +803,21 @@ def run(prop, tier, seed, known):
         results.append(dict(kind='engine', engine='bundles', name='%s.evaluate' % task, status=status, detail=detail, paths=info.get('impl_paths', 0),
                             obligations=obs, inlined=[], used_contracts=[], gen_time=0, wall=round(time.time() - t0, 3), lib_used=[],
                             props=[prop]))
+    for (task, fn), props_ in FN_TARGETS.items():
+        if prop not in props_:
+            continue
+        t0 = time.time()
+        try:
+            obs, info = analyse(task, fn)
+            status, detail = 'ok', ''
+        except Unsupported as ex:
+            obs, info, status, detail = [], {}, 'out-of-subset', str(ex)
+        except Exception:
+            obs, info, status, detail = [], {}, 'error', traceback.format_exc()
+        results.append(dict(kind='engine', engine='bundles', name='%s.%s' % (task, fn), status=status, detail=detail, paths=info.get('impl_paths', 0),
+                            obligations=obs, inlined=[], used_contracts=[], gen_time=0, wall=round(time.time() - t0, 3), lib_used=[], props=[prop]))
+    if prop not in ('C03', 'C19', 'C17'):
+        return dict(results=results, bounded=bounded)
     ar = arity_obligations()
     results.append(dict(kind='engine', engine='bundles', name='metric-function result arity', status='ok', detail='', paths=0, obligations=ar,
                         inlined=[], used_contracts=[], gen_time=0, wall=0, lib_used=[], props=['C03']))
